@@ -480,6 +480,38 @@ Section StrOps.
       unfold sabs at 1. simpl. rewrite WR. rewrite !app_assoc, removelast_snoc. reflexivity.
   Qed.
 
+  Lemma str_size_small al v : str_ok al v -> s_size v < W64.
+  Proof.
+    intros Sv. pose proof (str_size_le_cap _ _ Sv) as Hc. destruct Sv as (Vv & _).
+    destruct (base v) as [b|] eqn:Q.
+    - pose proof (cap_small _ _ Vv ltac:(congruence)). unfold LIMIT, W64 in *. lia.
+    - destruct Vv as (_ & _ & _ & Hb). rewrite Q in Hb. unfold W64. lia.
+  Qed.
+
+  (** append_str_n: exactly [len] characters of the source go to the end;
+      aborts iff the growth cannot be satisfied *)
+  Lemma append_str_n_spec al v src len :
+    alloc_ok al -> no_bad_free al -> str_ok al v -> len < W64 ->
+    (N.to_nat len <= length src)%nat ->
+    match append_str_n ok false al v src len with
+    | Ok (al', v') =>
+      (0 < len -> ~ grow_fails al v (s_size v + len)) /\
+      alloc_ok al' /\ no_bad_free al' /\ str_ok al' v' /\ heap_frame al al' (base v) (base v') /\
+      esize v' = esize v /\
+      sabs v' = sabs v ++ firstn (N.to_nat len) src
+    | Abt => 0 < len /\ grow_fails al v (s_size v + len)
+    | Flt => False
+    end.
+  Proof.
+    intros A NB So Hl Hsrc. unfold append_str_n.
+    pose proof (insert_str_n_spec al v (s_size v) src len A NB So (str_size_small al v So) Hl Hsrc) as R.
+    destruct (insert_str_n ok false al v (s_size v) src len) as [[al' v']| |]; auto.
+    - destruct R as (_ & NF & A' & NB' & S' & F' & Es & Ab).
+      split; [exact NF|]. do 5 (split; [assumption|]).
+      rewrite Ab, (str_size al v So), firstn_all, skipn_all, app_nil_r. reflexivity.
+    - destruct R as [X|X]; [lia|auto].
+  Qed.
+
   Lemma sub64_small a b : b <= a -> a < W64 -> sub64 a b = a - b.
   Proof.
     intros H1 H2. unfold sub64. replace (a + W64 - b) with ((a - b) + 1 * W64) by lia.
@@ -620,6 +652,50 @@ Section StrOps.
     destruct (offset_in_block al v i V ltac:(lia)) as (b & bs & _ & _ & W & _).
     rewrite W. repeat split; auto.
     rewrite (str_elems al v So Cp). apply app_nth1. pose proof (str_size al v So). lia.
+  Qed.
+
+  (** cstl_string_at_const is cstl_string_at *)
+  Lemma s_at_const_spec al v i :
+    str_ok al v ->
+    match s_at_const al v i with
+    | Ok (off, c) => i < s_size v /\ off = i * esize v /\ c = nth (N.to_nat i) (sabs v) POISON
+    | Abt => s_size v <= i
+    | Flt => False
+    end.
+  Proof. exact (s_at_spec al v i). Qed.
+
+  (** cstl_string_data: NULL only while nothing was ever stored or reserved
+      (then the string is empty); once the vector holds elements it is the
+      start of a live block whose first size+1 cells are the reference
+      string followed by NUL - the same cells str() shows *)
+  Lemma s_data_spec al v :
+    str_ok al v ->
+    (s_data v = None -> count v = 0 /\ cap v = 0 /\ sabs v = [] /\ data_obs al v = [1%Z]) /\
+    (0 < count v ->
+     exists b bs, s_data v = Some b /\ block_size al b = Some bs /\ (s_size v + 1) * esize v <= bs /\
+       rd_range al v 0 (s_size v + 1) = Ok (sabs v ++ [NUL]) /\
+       s_view false al v = Ok (sabs v ++ [NUL]) /\
+       data_obs al v = 0%Z :: Z.of_nat b :: 0%Z :: 1%Z :: map Z.of_N (sabs v)).
+  Proof.
+    intros So. pose proof So as (V & _). pose proof V as (He & Hc & Hl & Hb). split.
+    - unfold s_data, data_obs. intros B. unfold s_data. rewrite B in *.
+      assert (count v = 0) by lia. destruct (str_empty al v So) as (Ea & _); auto.
+    - intros Cp. pose proof (str_size_count al v So Cp) as Ec.
+      pose proof (str_elems al v So Cp) as Ee. pose proof (str_size al v So) as Sz.
+      assert (Bn : base v <> None) by (apply (count_pos_base al); auto).
+      destruct (range_ok_in al v 0 (s_size v + 1) V Bn ltac:(lia)) as (R & Cl).
+      unfold s_data, data_obs, s_data. destruct (base v) as [b|] eqn:Eb; [|congruence].
+      destruct Hb as (bs & Ebs & Hs & Hlim). exists b, bs.
+      assert ((s_size v + 1) * esize v <= (cap v + 1) * esize v) by (apply N.mul_le_mono_r; lia).
+      repeat split; auto; try lia.
+      + unfold rd_range. destruct (N.eqb_spec (s_size v + 1) 0); [lia|]. rewrite R, Cl. f_equal.
+        change (N.to_nat 0) with O. rewrite Ee.
+        replace (N.to_nat (s_size v + 1)) with (length (sabs v ++ [NUL])) by (rewrite app_length; simpl; lia).
+        pose proof (lread_app [] (sabs v ++ [NUL]) []) as LR. simpl in LR. rewrite app_nil_r in LR. exact LR.
+      + apply s_view_spec; auto.
+      + destruct (N.eqb_spec (count v) 0); [lia|]. rewrite R. rewrite Ee, Sz.
+        rewrite app_nth2 by lia. rewrite Nat.sub_diag. simpl.
+        rewrite firstn_app, Nat.sub_diag, firstn_all. simpl. rewrite app_nil_r. reflexivity.
   Qed.
 
   (** substr into a different object *)
@@ -1036,11 +1112,12 @@ Definition op_small (o : sop) : Prop :=
   match o with
   | SSet _ cs | SAppendStr _ cs | SCompareStr _ cs => N.of_nat (length cs) < W64
   | SInsertCh _ pos cnt _ => pos < W64 /\ cnt < W64
-  | SInsertStr _ pos cs | SInsertStrN _ pos cs | SFindStr _ cs pos => pos < W64 /\ N.of_nat (length cs) < W64
+  | SInsertStr _ pos cs | SInsertStrN _ pos cs | SFindStr _ cs pos | SAppendStrN _ pos cs =>
+    pos < W64 /\ N.of_nat (length cs) < W64
   | SInsert _ pos _ | SFind _ pos _ => pos < W64
   | SAppendCh _ cnt _ => cnt < W64
   | SErase _ pos len | SSubstr _ pos len _ => pos < W64 /\ len < W64
-  | SResize _ n | SReserve _ n | SAt _ n => n < W64
+  | SResize _ n | SReserve _ n | SAt _ n | SAtConst _ n => n < W64
   | SFindCh _ _ pos => pos < W64
   | _ => True
   end.
@@ -1100,7 +1177,18 @@ Section SSys.
     | SSwap a b =>
       exists x y, nth_error r a = Some x /\ nth_error r b = Some y /\ r' = upd (upd r a y) b x /\ out = []
     | SClear i => r' = upd r i [] /\ out = []
-    | SAt i k =>
+    | SAppendStrN i n cs =>
+      exists x, nth_error r i = Some x /\ (N.to_nat n <= length cs)%nat /\
+                r' = upd r i (x ++ firstn (N.to_nat n) cs) /\ out = []
+    | SData i =>
+      (* NULL only for a string without storage; once the string was
+         assigned, the start of its block, where the reference string
+         followed by NUL is read *)
+      exists v, nth_error (vecs s) i = Some v /\ s' = s /\ out = data_obs (heap s) v /\
+        (s_data v = None -> sabs v = [] /\ out = [1%Z]) /\
+        (0 < count v -> exists b, s_data v = Some b /\ is_live (heap s) b = true /\
+                                  out = 0%Z :: Z.of_nat b :: 0%Z :: 1%Z :: map Z.of_N (sabs v))
+    | SAt i k | SAtConst i k =>
       exists v, nth_error (vecs s) i = Some v /\ s' = s /\ (N.to_nat k < length (sabs v))%nat /\
                 out = [Z.of_N (k * esize v); Z.of_N (nth (N.to_nat k) (sabs v) POISON)]
     | SFindCh i c pos =>
@@ -1144,7 +1232,9 @@ Section SSys.
     | SAppendStr i cs =>
       exists v, nth_error (vecs s) i = Some v /\ cs <> [] /\
                 grow_fails ok al v (s_size v + N.of_nat (length cs))
-    | SErase i pos _ | SAt i pos | SFindCh i _ pos | SFindStr i _ pos | SFind i pos _ =>
+    | SAppendStrN i n _ =>
+      exists v, nth_error (vecs s) i = Some v /\ 0 < n /\ grow_fails ok al v (s_size v + n)
+    | SErase i pos _ | SAt i pos | SAtConst i pos | SFindCh i _ pos | SFindStr i _ pos | SFind i pos _ =>
       exists v, nth_error (vecs s) i = Some v /\ s_size v <= pos
     | SSubstr i pos len t =>
       exists v vt, nth_error (vecs s) i = Some v /\ nth_error (vecs s) t = Some vt /\
@@ -1188,7 +1278,7 @@ Section SStepProof.
   Proof.
     intros So Sm. pose proof So as ((A & NB & _) & _).
     destruct o as [i cs|i pos cnt c|i pos cs|i pos cs|i pos t|i t|i cnt c|i cs|i pos len|i pos len t|i n|i n
-                   |a b|i|i k|i c pos|i cs pos|i pos t|a b|a cs];
+                   |a b|i|i k|i c pos|i cs pos|i pos t|a b|a cs|i n cs|i k|i];
       cbn [StrModel.sstep]; unfold with_vec; simpl in Sm.
     - (* set *)
       destruct (nth_error (vecs s) i) as [v|] eqn:E; auto. destruct (lit_ok (esize v) cs); auto.
@@ -1415,6 +1505,35 @@ Section SStepProof.
       pose proof (ssys_nth s a va So Ea) as Sa.
       rewrite (compare_str_spec (heap s) va cs Sa). simpl. split; auto.
       exists (sabs va). rewrite (sabs_nth s a va Ea). auto.
+    - (* append_str_n *)
+      destruct Sm as (Hn & Hc).
+      destruct (nth_error (vecs s) i) as [v|] eqn:E; auto. destruct (forallb (char_ok (esize v)) cs); auto.
+      pose proof (ssys_nth s i v So E) as Sv.
+      destruct (N.leb_spec n (N.of_nat (length cs))) as [Hle|Hgt].
+      + pose proof (append_str_n_spec ok (heap s) v cs n A NB Sv Hn ltac:(lia)) as R.
+        destruct (append_str_n ok false (heap s) v cs n) as [[al' v']| |]; simpl; [| |contradiction].
+        * destruct R as (_ & A' & NB' & S' & F' & _ & Ab). fin_upd.
+          exists (sabs v). rewrite (sabs_nth s i v E), Ab. repeat split; auto. lia.
+        * exists v. auto.
+      + pose proof (prep_insert_spec ok (heap s) v (s_size v) n A NB Sv (str_size_small (heap s) v Sv) Hn) as R.
+        destruct (prep_insert ok false (heap s) v (s_size v) n) as [[al' v']| |]; auto.
+        exists v. split; auto. destruct R as [X|X]; [lia|auto].
+    - (* at_const *)
+      destruct (nth_error (vecs s) i) as [v|] eqn:E; auto.
+      pose proof (ssys_nth s i v So E) as Sv. pose proof (str_size _ _ Sv) as Sz.
+      pose proof (s_at_const_spec (heap s) v k Sv) as R.
+      destruct (s_at_const (heap s) v k) as [[off c]| |]; simpl; try contradiction.
+      + destruct R as (H1 & -> & ->). split; auto. exists v. repeat split; auto. lia.
+      + exists v. auto.
+    - (* data *)
+      destruct (nth_error (vecs s) i) as [v|] eqn:E; auto.
+      pose proof (ssys_nth s i v So E) as Sv.
+      destruct (s_data_spec (heap s) v Sv) as (D0 & D1).
+      split; auto. exists v. repeat split; auto.
+      + apply D0; auto.
+      + apply D0; auto.
+      + intros Cp. destruct (D1 Cp) as (b & bs & Eb & Ebs & _ & _ & _ & Eo). exists b. repeat split; auto.
+        apply is_live_bsize. congruence.
   Qed.
 End SStepProof.
 
